@@ -47,6 +47,19 @@ var rangeSpecials = []string{
 	"bytes=0-4;q=1", "bytes=0-4-", "bytes=0--4", "bytes=\t0-4", "bytes=0-4\t", "=0-4", "bytes==0-4", "bytes=0-4=",
 }
 
+func init() {
+	// numbers around the points where a decimal accumulator overflows int64 / uint64: every
+	// 19-digit prefix next to MaxInt64/10 and MaxUint64/10, each following digit, a few tails
+	for _, prefix := range []string{"922337203685477580", "922337203685477579", "1844674407370955161", "1844674407370955160"} {
+		for d := 0; d <= 9; d++ {
+			for _, tail := range []string{"", "0", "5", "99"} {
+				n := prefix + strconv.Itoa(d) + tail
+				rangeSpecials = append(rangeSpecials, "bytes=0-"+n, "bytes="+n+"-", "bytes=-"+n)
+			}
+		}
+	}
+}
+
 func genRangePlan(r *rand.Rand, tier string) *ProxyPlan {
 	idx := int(currentSeed & 0xffffffff)
 	p := &ProxyPlan{Family: "range"}
@@ -73,13 +86,16 @@ func genRangePlan(r *rand.Rand, tier string) *ProxyPlan {
 	p.Res = []PRes{rs}
 	reqs := []PReq{{Res: 0}}
 	const per = 24
-	block := idx / 1600 // 1600 = number of (backend,retry,retry416,size,etag,lastmod,mode) combinations
-	combo := idx % 1600
-	_ = combo
+	// every run takes its own block of the enumeration; the settings above cycle with the
+	// low bits of the index, so each string meets many settings over a thorough batch
+	block := idx
 	total := rangeEnumMax + len(rangeSpecials)
 	for k := 0; k < per; k++ {
 		var rg string
-		j := (block*per + k)
+		j := (block*(per/2) + k)
+		if tier == "thorough" {
+			j = block*per + k
+		}
 		if tier == "thorough" || k < per/2 {
 			j = j % total
 			if j < len(rangeSpecials) {
